@@ -1,9 +1,9 @@
 CONSTANTS
   MaxTrials = 3
-  Folds = 2
-  Grid = {0, 1, 2}
-  Vals = {0, 1}
-  K = 0
+  Folds = 1
+  Grid = {0, 1, 2, 3, 4, 5, 6, 7, 8}
+  Vals = {0}
+  K = 3
 SPECIFICATION Spec
 INVARIANTS OptimumMinimal WarmStartReadsStoredSlots ClosestInsideBound
 CHECK_DEADLOCK FALSE
